@@ -150,12 +150,50 @@ theorem mapM_mkSpecifier (f : PyVal → M PyVal) (cs : List Str)
     | none => rfl
     | some sp => cases SSet.parseAll cs <;> rfl
 
+/-- x8: `[s.strip() for s in strs]` (no filter): only what the closure computes on strings matters -/
+theorem genexp_strip (f : PyVal → M PyVal) (l : List Str) (hf : ∀ s, f (.str s) = .ok (.str (strip s))) :
+    genexp f (.list (l.map .str)) = .ok (.iter ((l.map strip).map .str)) := by
+  have h2 : ∀ k : List Str, mapM f (k.map .str) = .ok ((k.map strip).map .str) := by
+    intro k
+    induction k with
+    | nil => rfl
+    | cons x xs ih => simp only [List.map_cons, mapM, hf, ih, PyRt.ok_bind, PyRt.pure_ok]
+  simp only [genexp, iterate_list, PyRt.ok_bind, h2, PyRt.pure_ok]
+
+/-- x8: `(Specifier(t) for t in pieces if t)`: the non-empty pieces are parsed in order (the test is pure, so filtering
+first and parsing afterwards is what the generator does) -/
+theorem genexpIf_mkSpecifier (f c : PyVal → M PyVal) (l : List Str)
+    (hf : ∀ s, f (.str s) = PySet.mkSpecifier "Specifier" (.str s) .none)
+    (hc : ∀ s, c (.str s) = .ok (.bool !s.isEmpty)) :
+    genexpIf f c (.list (l.map .str)) =
+      (match SSet.parseAll (l.filter fun c => !c.isEmpty) with
+       | none => .error "InvalidSpecifier"
+       | some sps => .ok (.iter ((sps.map fun sp => ((sp, none) : Member)).map ofMember))) := by
+  have h1 : filterM c (l.map .str) = .ok ((l.filter fun s => !s.isEmpty).map .str) := by
+    induction l with
+    | nil => rfl
+    | cons x xs ih =>
+      simp only [List.map_cons, filterM, hc, ih, PyRt.ok_bind, PyRt.pure_ok, truthy_bool, List.filter_cons]
+      cases x.isEmpty <;> rfl
+  simp only [genexpIf, iterate_list, PyRt.ok_bind, h1, mapM_mkSpecifier f _ hf]
+  cases SSet.parseAll (l.filter fun c => !c.isEmpty) <;> rfl
+
+/-- `map(Specifier, pieces)` / `(Specifier(t) for t in pieces)` -/
+theorem genexp_mkSpecifier (f : PyVal → M PyVal) (l : List Str)
+    (hf : ∀ s, f (.str s) = PySet.mkSpecifier "Specifier" (.str s) .none) :
+    genexp f (.list (l.map .str)) =
+      (match SSet.parseAll l with
+       | none => .error "InvalidSpecifier"
+       | some sps => .ok (.iter ((sps.map fun sp => ((sp, none) : Member)).map ofMember))) := by
+  simp only [genexp, iterate_list, PyRt.ok_bind, mapM_mkSpecifier f _ hf]
+  cases SSet.parseAll l <;> rfl
+
 /-- `SpecifierSet(str, prereleases)` -/
 theorem SpecifierSet.__init___str (s : Str) (pre : Option Bool) :
     Gen.PySrc.SpecifierSet.__init__ (.obj "SpecifierSet" []) (.str s) (ofOptBool pre) =
       (SSet.ofString s pre).map ofSSet := by
   simp only [Gen.PySrc.SpecifierSet.__init__, isinstance, ofString_comma, str_split_single, genexpIf_strip, map_,
-    genexp, mapM_mkSpecifier, SSet.ofString, SSet.clauses, className_str, List.contains_cons, beq_self_eq_true,
+    genexp_strip, genexp_mkSpecifier, genexpIf_mkSpecifier, SSet.ofString, SSet.clauses, className_str, List.contains_cons, beq_self_eq_true,
     Bool.true_or, truthy_bool, if_true, PyRt.ok_bind, PyRt.pure_ok, list_iter, iterate_list, str_strip_str, truthy_str,
     implies_true]
   cases SSet.parseAll (List.filter (fun c => !List.isEmpty c) (List.map strip (splitOn 44 s))) with
